@@ -40,6 +40,8 @@ type Pod struct {
 	// TerminatingUntil: the pod carries a deletion timestamp (delete / eviction with a long grace period)
 	// while its containers still run and serve; a statefulset pod is recreated under the same name
 	TerminatingUntil time.Time
+	// PromAPIDownUntil: the pod's Prometheus does not answer its API (the sidecar's runtimeinfo then fails)
+	PromAPIDownUntil time.Time
 	FileMode         bool
 	FileText         string // configuration text currently rolled out to this pod's file
 	ReloadFailUntil  time.Time
@@ -217,7 +219,12 @@ func (c *Cluster) startPod(p *Pod, now time.Time) error {
 		p.Prom = NewPromStub(c.Instant, c.OffsetFor)
 	}
 	prom := p.Prom
-	sc.HeadSeries = prom.Head
+	sc.HeadSeries = func() (int64, error) {
+		if time.Now().Before(p.PromAPIDownUntil) {
+			return 0, fmt.Errorf("prometheus api down (injected)")
+		}
+		return prom.Head()
+	}
 	sc.OnReload = func() {
 		if time.Now().Before(p.ReloadFailUntil) {
 			sc.ReloadErr = fmt.Errorf("prometheus reload failed (injected)")
